@@ -40,11 +40,12 @@ func (t *CType) Locus() map[string]string {
 }
 
 type Corpus struct {
-	Types   []*CType
-	Pkgs    []*GenPkg
-	Driver  string
-	Dropped int
-	mod     *modDir
+	Types      []*CType
+	Pkgs       []*GenPkg
+	Driver     string
+	DriverAsan string
+	Dropped    int
+	mod        *modDir
 }
 
 type corpusCfg struct {
@@ -161,6 +162,8 @@ func buildCorpus(r *core.Run, cfg corpusCfg) (*Corpus, error) {
 func (c *Corpus) child(asan bool) *core.Child {
 	ch := &core.Child{Name: "driver", Argv: []string{c.Driver}, CPUBudget: 2 * time.Second, Wall: 10 * time.Minute}
 	if asan {
+		ch.Argv = []string{c.DriverAsan}
+		ch.CPUBudget = 10 * time.Second
 		ch.Env = []string{"ASAN_OPTIONS=detect_leaks=0:halt_on_error=1:abort_on_error=0"}
 	} else {
 		ch.Env = []string{"VERIF_AS_LIMIT_MB=6144"}
